@@ -8,6 +8,9 @@ CONSTANTS
   Dev_IdZeroAfterMainRemoved = FALSE
   Dev_TerminateKeepsObjects = FALSE
   Dev_FailedAddLeavesEntry = FALSE
+  ClientSide = FALSE
+  Dev_ClientRemoveKeepsEntry = FALSE
+  Dev_ClientLateCallDropped = FALSE
 CONSTRAINT Track
 INVARIANTS UniqueLiveIds TerminateHookExactlyOnce NoCrash
 POSTCONDITION Accepted
